@@ -66,6 +66,20 @@ def type_table():
     return t
 
 
+def meta_type_table():
+    """types_mapping of the lazily created SchemaValidator (adds 'callable' and 'hashable')"""
+    from cerberus import schema as cschema
+    Validator({})                      # makes sure SchemaValidator exists
+    t = {}
+    for name, td in cschema.SchemaValidator.types_mapping.items():
+        row = {}
+        for cname, rep in REPRESENTATIVES:
+            row[cname] = bool(isinstance(rep, td.included_types) and not isinstance(rep, td.excluded_types))
+        t[name] = row
+    # a tuple of lists is Hashable for isinstance(), like every tuple
+    return t
+
+
 def error_defs():
     out = {}
     for k, v in vars(cerr).items():
@@ -104,6 +118,8 @@ def tables():
         'dropOnEmpty': empty_drop,
         'typeFailDropsAll': type_all,
         'typeTable': type_table(),
+        'metaTypeTable': meta_type_table(),
+        'typeNames': list(Validator.types),
         'errorDefs': error_defs(),
         'messageCodes': sorted(cerr.BasicErrorHandler.messages),
         'groupCodes': g, 'logicCodes': l, 'normCodes': n,
@@ -168,6 +184,12 @@ def render(t):
         cells = ', '.join('(Val.Ctor.%s, %s)' % (c, 'true' if b else 'false') for c, b in row.items())
         rows.append('  (%s, [%s])' % (lstr(name), cells))
     L.append('def typeTable : List (String × List (Val.Ctor × Bool)) := [\n%s]' % ',\n'.join(rows))
+    rows = []
+    for name, row in sorted(t['metaTypeTable'].items()):
+        cells = ', '.join('(Val.Ctor.%s, %s)' % (c, 'true' if b else 'false') for c, b in row.items())
+        rows.append('  (%s, [%s])' % (lstr(name), cells))
+    L.append('def metaTypeTable : List (String × List (Val.Ctor × Bool)) := [\n%s]' % ',\n'.join(rows))
+    L.append('def typeNames : List String := %s' % lstrs(t['typeNames']))
     defs = []
     for name, (code, rule) in sorted(t['errorDefs'].items(), key=lambda kv: (kv[1][0], kv[0])):
         defs.append('  (%s, %d, %s)' % (lstr(name), code, 'none' if rule is None else 'some ' + lstr(rule)))
@@ -182,11 +204,14 @@ def render(t):
     for k, v in t['metaSchema'].items():
         ms.append('  (%s, %s)' % (lstr(k), lval(v)))
     L.append('def metaSchema : List (String × Val) := [\n%s]' % ',\n'.join(ms))
+    L.append('def metaSchemaFields : List (Key × Val) := metaSchema.map (fun p => (Key.s p.1, p.2))')
     L.append('def tables : Tables := {')
     L.append('  priority := priority, mandatory := mandatory, nonQueue := nonQueue,')
     L.append('  dropOnNone := dropOnNone, dropOnEmpty := dropOnEmpty, typeFailDropsAll := typeFailDropsAll,')
     L.append('  typeTable := typeTable, messageCodes := messageCodes,')
     L.append('  normalizationRules := normalizationRules }')
+    L.append('/-- the tables of the SchemaValidator class: the same, with its extended type table -/')
+    L.append('def metaTables : Tables := { tables with typeTable := metaTypeTable }')
     L.append('end Cerberus.Extracted')
     return '\n'.join(L) + '\n'
 
